@@ -34,6 +34,7 @@ func Begin(seed uint64, startUS int64, cfg Config) *Sched {
 func BeginInline(seed uint64, startUS int64) *Sched {
 	s := Begin(seed, startUS, Config{Strategy: StratSeq, MaxSteps: 1 << 60})
 	id := s.AddTask("main")
+	s.planned = 1
 	s.prepare()
 	s.cur = s.tasks[id]
 	return s
@@ -43,6 +44,10 @@ func BeginInline(seed uint64, startUS int64) *Sched {
 //
 //go:norace
 func End() {
+	if S != nil {
+		S.Drain()
+		S.MarkEnded()
+	}
 	active = false
 	S = nil
 	FS = nil
